@@ -1207,3 +1207,712 @@ Proof.
     constructor; cbn [mtx ct]; auto; [apply Hslots; apply Hsl_same; reflexivity|apply Hfp; cbn; intros; discriminate].
 Qed.
 
+(* ---------- preservation of Good ---------- *)
+Lemma others_idle g ls t l u : Base g ls -> nth_error ls t = Some l -> (mtx g = None \/ holds (at_ l) = true) ->
+  u <> t -> holds (pcof ls u) = false.
+Proof.
+  intros HB Hl Hc Hne. destruct (holds (pcof ls u)) eqn:Hu; [exfalso|reflexivity].
+  pose proof (B_owner _ _ HB _ Hu) as Hm. destruct Hc as [Hn|Hh]; [congruence|].
+  apply Hne. eapply (own_unique (mtx g) ls t u); [split; [apply (B_owner _ _ HB)|apply (B_held _ _ HB)]| |exact Hu].
+  rewrite (pcof_at _ _ _ Hl). exact Hh.
+Qed.
+
+(* a step of a thread that does not own the lock and does not touch the shared state *)
+Lemma Good_passive g ls t l l' : Good g ls -> nth_error ls t = Some l ->
+  holds (at_ l) = false -> holds (at_ l') = false -> Good g (upd ls t l').
+Proof.
+  intros [HNF HFL HCI HFU HCA HPV] Hl Hh Hh'. pose proof (pcof_at _ _ _ Hl) as Hp.
+  constructor; auto.
+  - intros u. rewrite (pcof_upd _ _ _ _ _ Hl). destruct (Nat.eqb_spec u t); [|apply HFL].
+    intros E. rewrite E in Hh'. discriminate.
+  - intros u v k key q r c0. rewrite (pcof_upd _ _ _ _ _ Hl). destruct (Nat.eqb_spec u t); [|apply HFU].
+    intros E. rewrite E in Hh'. discriminate.
+  - intros u o. rewrite (pcof_upd _ _ _ _ _ Hl). destruct (Nat.eqb_spec u t); [|apply HCA].
+    intros E. rewrite E in Hh'. discriminate.
+Qed.
+
+(* a step of the thread that takes or owns the lock: only its own pc matters *)
+Lemma Good_build g g' ls t l l' : Base g ls -> nth_error ls t = Some l -> (mtx g = None \/ holds (at_ l) = true) ->
+  faulted g' = false -> at_ l' <> P_unlock OFault ->
+  (CInv (ct g') /\ replay (hist g') cont0 = Some (ct g')) ->
+  (forall v k key q r c0, at_ l' = P_ful v k key q r c0 ->
+     pend (ct g') k = (key, q) :: r /\ (k = true -> pend (ct g') false = []) /\
+     In (t, FulfillAll v) (began g') /\
+     (forall i ki keyi, nth_error (heap c0) i = Some (Cell ki keyi Unset) ->
+        nth_error (heap (ct g')) i = Some (Cell ki keyi Unset) \/
+        nth_error (heap (ct g')) i = Some (Cell ki keyi (SetV v)))) ->
+  (forall o, at_ l' = P_call o -> In (t, o) (began g') /\
+     exists k key v q, o = SetValue false k key v /\ afind key (pend (ct g') k) = Some q) ->
+  (forall q k key v, nth_error (heap (ct g')) q = Some (Cell k key (SetV v)) ->
+     exists t0, (exists mv, In (t0, SetValue mv k key v) (began g')) \/ In (t0, FulfillAll v) (began g')) ->
+  Good g' (upd ls t l').
+Proof.
+  intros HB Hl Hc Hnf Hfl Hci Hfu Hca Hpv.
+  assert (Hoth : forall u, u <> t -> holds (pcof (upd ls t l') u) = false).
+  { intros u Hne. rewrite (pcof_upd _ _ _ _ _ Hl). destruct (Nat.eqb_spec u t); [contradiction|].
+    eapply others_idle; eauto. }
+  constructor; auto.
+  - intros u. destruct (Nat.eq_dec u t) as [->|Hne].
+    + rewrite (pcof_upd _ _ _ _ _ Hl), Nat.eqb_refl. exact Hfl.
+    + intros E. specialize (Hoth _ Hne). rewrite E in Hoth. discriminate.
+  - intros u v k key q r c0. destruct (Nat.eq_dec u t) as [->|Hne].
+    + rewrite (pcof_upd _ _ _ _ _ Hl), Nat.eqb_refl. apply Hfu.
+    + intros E. specialize (Hoth _ Hne). rewrite E in Hoth. discriminate.
+  - intros u o. destruct (Nat.eq_dec u t) as [->|Hne].
+    + rewrite (pcof_upd _ _ _ _ _ Hl), Nat.eqb_refl. apply Hca.
+    + intros E. specialize (Hoth _ Hne). rewrite E in Hoth. discriminate.
+Qed.
+
+Lemma prov_mono (b : list (nat * op)) x k key v :
+  (exists t0, (exists mv, In (t0, SetValue mv k key v) b) \/ In (t0, FulfillAll v) b) ->
+  exists t0, (exists mv, In (t0, SetValue mv k key v) (b ++ x)) \/ In (t0, FulfillAll v) (b ++ x).
+Proof. intros [t0 [[mv H]|H]]; exists t0; [left; exists mv|right]; apply in_or_app; auto. Qed.
+
+Lemma Good_step t g ls l g' l' es : Base g ls -> Good g ls -> nth_error ls t = Some l ->
+  stepk t g l g' l' es -> Good g' (upd ls t l').
+Proof.
+  intros HB HG Hl Hs. pose proof (pcof_at _ _ _ Hl) as Hp.
+  pose proof HG as [HNF HFL [HC HR] HFU HCA HPV].
+  destruct Hs.
+  - (* invoke *) apply Good_passive with (l := l); auto; rewrite ?H; reflexivity.
+  - (* observe *) apply Good_passive with (l := l); auto; rewrite ?H; reflexivity.
+  - (* lock *)
+    destruct (enter_spec _ _ _ _ _ HC H1) as [-> Hcases].
+    apply Good_build with (g := g) (l := l); auto; cbn [faulted ct hist began at_].
+    + rewrite HNF. reflexivity.
+    + destruct Hcases as [[k [key [v [q [_ [-> _]]]]]]|[[rv [_ [-> _]]]|[v [_ [_ [[k [key [q [r [-> _]]]]]|[-> _]]]]]]]; discriminate.
+    + destruct Hcases as [[k [key [v [q [_ [-> [-> _]]]]]]]|[[rv [Hn [-> Ha]]]|[v [-> [-> [[k [key [q [r [-> _]]]]]|[-> _]]]]]]].
+      * cbn [log_out]. auto.
+      * cbn [log_out]. split; [apply (apply_CInv _ _ _ _ _ HC Ha)|eapply replay_ret; eauto].
+      * cbn [log_out]. auto.
+      * cbn [log_out]. split; [exact HC|eapply replay_ful; eauto].
+    + intros v k key q r c0 E.
+      destruct Hcases as [[k1 [key1 [v1 [q1 [_ [-> _]]]]]]|[[rv [_ [-> _]]]|[v1 [-> [-> [[k1 [key1 [q1 [r1 [-> [Hpe Hk]]]]]]|[-> _]]]]]]]; try discriminate.
+      inversion E; subst. cbn [log_out]. refine (conj Hpe (conj Hk (conj _ _))).
+      * apply in_or_app. right. left. reflexivity.
+      * intros i ki keyi Hi. left. exact Hi.
+    + intros o0 E.
+      destruct Hcases as [[k1 [key1 [v1 [q1 [Ho [-> [-> Hf]]]]]]]|[[rv [_ [-> _]]]|[v1 [_ [_ [[k1 [key1 [q1 [r1 [-> _]]]]]|[-> _]]]]]]]; try discriminate.
+      inversion E; subst o0. split; [apply in_or_app; right; left; reflexivity|]. exists k1, key1, v1, q1. auto.
+    + intros q k key v Hq.
+      destruct Hcases as [[k1 [key1 [v1 [q1 [_ [_ [-> _]]]]]]]|[[rv [_ [_ Ha]]]|[v1 [_ [-> _]]]]].
+      * apply prov_mono. apply (HPV _ _ _ _ Hq).
+      * destruct (apply_prov _ _ _ _ _ _ _ _ _ HC Ha Hq) as [Hold|[_ [[mv ->]| ->]]].
+        -- apply prov_mono. apply (HPV _ _ _ _ Hold).
+        -- exists t. left. exists mv. apply in_or_app. right. left. reflexivity.
+        -- exists t. right. apply in_or_app. right. left. reflexivity.
+      * apply prov_mono. apply (HPV _ _ _ _ Hq).
+  - (* a copy in setDelayedValue throws: nothing changed *)
+    assert (Hh : holds (at_ l) = true) by (rewrite H; reflexivity).
+    apply Good_build with (g := g) (l := l); auto; cbn [faulted ct hist began at_]; try discriminate.
+    split; [exact HC|eapply replay_exn; eauto].
+  - (* the copy in setDelayedValue succeeds: the rest of the body *)
+    assert (Hh : holds (at_ l) = true) by (rewrite H; reflexivity).
+    destruct (apply_CInv _ _ _ _ _ HC H1) as [HC' ->].
+    destruct (HCA t o (eq_trans Hp H)) as [Hb [k0 [key0 [v0 [q0 [Ho _]]]]]].
+    apply Good_build with (g := g) (l := l); auto; cbn [faulted ct hist began at_ out_of log_out]; try discriminate.
+    + rewrite HNF. reflexivity.
+    + split; [exact HC'|eapply replay_ret; eauto]. subst o. discriminate.
+    + intros q k key v Hq. destruct (apply_prov _ _ _ _ _ _ _ _ _ HC H1 Hq) as [Hold|[_ [[mv ->]| ->]]].
+      * apply (HPV _ _ _ _ Hold).
+      * exists t. left. exists mv. exact Hb.
+      * exists t. right. exact Hb.
+  - (* a copy in fulfillAllPromises throws: the keys served so far are completed, the others pending *)
+    assert (Hh : holds (at_ l) = true) by (rewrite H; reflexivity).
+    apply Good_build with (g := g) (l := l); auto; cbn [faulted ct hist began at_]; try discriminate.
+    split; [exact HC|eapply replay_ful; eauto].
+  - (* impossible: the promise at the iterator can be set *)
+    exfalso. destruct (HFU t v k key q r c0 (eq_trans Hp H)) as [Hpe _].
+    assert (In (key, q) (pend (ct g) k)) as Hin by (rewrite Hpe; left; reflexivity).
+    destruct (set_value_ok q v _ _ _ (C_pend _ HC _ _ _ Hin)) as [h1 E]. congruence.
+  - (* one more promise satisfied: the body of setDelayedValue for that key *)
+    assert (Hh : holds (at_ l) = true) by (rewrite H; reflexivity).
+    destruct (HFU t v k key q r c0 (eq_trans Hp H)) as [Hpe [Hk [Hb HJ]]].
+    pose proof (iter_is_set _ true _ _ _ _ _ _ Hpe H1) as Hap.
+    destruct (apply_CInv _ _ _ _ _ HC Hap) as [HC' _].
+    destruct (iter_pend _ _ _ _ _ h1 HC Hpe) as [Hpe' Hpo].
+    assert (Hk' : k = true -> pend (iter false (ct g) k key q h1) false = []).
+    { intros ->. rewrite Hpo by discriminate. apply Hk. reflexivity. }
+    pose proof (ful_goto_heap _ _ _ _ _ _ _ _ H2) as Hheap.
+    destruct (ful_goto_spec _ _ _ _ _ _ _ _ HC' Hpe' Hk' H2) as [-> [-> Hcases]].
+    assert (HR' : replay (hist g ++ [(t, SetValue true k key v, ORet 0)]) cont0 = Some (iter false (ct g) k key q h1)).
+    { eapply replay_ret; eauto. discriminate. }
+    assert (Hq : afind key (pend (ct g) k) = Some q) by (rewrite Hpe; cbn; rewrite Z.eqb_refl; reflexivity).
+    destruct (apply_set_pending _ true _ _ v _ HC Hq) as [c1 [Hap1 [Hq0 [Hq1 Hqo]]]].
+    rewrite Hap in Hap1. inversion Hap1; subst c1. clear Hap1.
+    apply Good_build with (g := g) (l := l); auto; cbn [faulted ct hist began at_].
+    + rewrite HNF. reflexivity.
+    + destruct Hcases as [[k' [key' [q' [r' [-> _]]]]]|[-> _]]; discriminate.
+    + destruct Hcases as [[k' [key' [q' [r' [-> _]]]]]|[-> _]]; cbn [log_out]; [auto|].
+      split; [exact HC'|eapply replay_ful; eauto].
+    + intros v0 k0 key0 q0 r0 c1 E.
+      destruct Hcases as [[k' [key' [q' [r' [-> [Hpe2 Hk2]]]]]]|[-> _]]; [|discriminate].
+      inversion E; subst. refine (conj Hpe2 (conj Hk2 (conj Hb _))).
+      intros i ki keyi Hi. destruct (Nat.eq_dec i q) as [->|Hne].
+      * right. destruct (HJ _ _ _ Hi) as [Hu|Hs]; rewrite Hq0 in *; [inversion Hu; subst; exact Hq1|discriminate].
+      * rewrite (Hqo _ Hne). apply HJ. exact Hi.
+    + intros o0 E. destruct Hcases as [[k' [key' [q' [r' [-> _]]]]]|[-> _]]; discriminate.
+    + intros i k0 key0 w Hi.
+      destruct (iter_heap _ _ _ _ _ _ (or_intror I) H1 _ _ _ _ Hi) as [Hold|[_ ->]]; [apply (HPV _ _ _ _ Hold)|].
+      exists t. right. exact Hb.
+  - (* unlock *)
+    assert (Hh : holds (at_ l) = true) by (rewrite H; reflexivity).
+    apply Good_build with (g := g) (l := l); auto; cbn [faulted ct hist began at_]; try discriminate.
+Qed.
+
+Lemma Inv_step : forall g ls t c l g' l' es,
+  Inv g ls -> nth_error ls t = Some l -> tstep t c g l = Some (g', l', es) -> Inv g' (upd ls t l').
+Proof.
+  intros g ls t c l g' l' es [HB HG] Hl Hs. apply tstep_stepk in Hs. split.
+  - eapply Base_step; eauto.
+  - eapply Good_step; eauto.
+Qed.
+
+(* ====================================================================== *)
+(* reachable states and the C18 lemmas                                     *)
+(* ====================================================================== *)
+(* ns future slots per client, pl = the throw plan (indices of the copies of X that throw) *)
+Definition R (ns : nat) (pl : list Z) (progs : list (list op)) (s : sysD) : Prop :=
+  reachable glob loc tstep (init ns pl progs) s.
+
+Lemma R_inv ns pl progs s : R ns pl progs s -> Inv (gl s) (thr s).
+Proof. intros H. eapply reachable_inv; [apply Inv_step|apply Inv_init|exact H]. Qed.
+Lemma R_base ns pl progs s : R ns pl progs s -> Base (gl s) (thr s).
+Proof. intros H. apply (R_inv _ _ _ _ H). Qed.
+Lemma R_good ns pl progs s : R ns pl progs s -> Good (gl s) (thr s).
+Proof. intros H. apply (R_inv _ _ _ _ H). Qed.
+Lemma R_cinv ns pl progs s : R ns pl progs s -> CInv (ct (gl s)).
+Proof. intros H. apply (G_cinv _ _ (R_good _ _ _ _ H)). Qed.
+Lemma R_plan ns pl progs s : R ns pl progs s -> plan (gl s) = pl.
+Proof.
+  intros H. refine (reachable_inv glob loc tstep (fun g _ => plan g = pl) _ (init ns pl progs) s eq_refl H).
+  intros g ls t c l g' l' es Hg Hl Hs. apply tstep_stepk in Hs. destruct Hs; cbn [plan]; exact Hg.
+Qed.
+
+(* ---------- do_never_twice ---------- *)
+Lemma never_twice ns pl progs s : R ns pl progs s -> faulted (gl s) = false /\ CInv (ct (gl s)).
+Proof. intros HR. split; [apply (G_nf _ _ (R_good _ _ _ _ HR))|eapply R_cinv; eauto]. Qed.
+
+Definition fault_ev : ev := E K_FAULT 0 1.
+Lemma no_fault_event ns pl progs s t c l g' l' es :
+  R ns pl progs s -> nth_error (thr s) t = Some l ->
+  tstep t c (gl s) l = Some (g', l', es) -> ~ In fault_ev es.
+Proof.
+  intros HR Hl Hs Hin. pose proof (G_flt _ _ (R_good _ _ _ _ HR) t) as Hf. rewrite (pcof_at _ _ _ Hl) in Hf.
+  apply tstep_stepk in Hs. destruct Hs; cbn in Hin;
+    repeat (destruct Hin as [Hin|Hin]; try discriminate); try contradiction.
+  destruct out; cbn in Hin; repeat (destruct Hin as [Hin|Hin]; try discriminate); try contradiction.
+Qed.
+
+(* ---------- do_stable: a satisfied (or broken) promise never changes again ---------- *)
+Lemma step_hle (s : sysD) tc : hle (heap (ct (gl s))) (heap (ct (gl (stepD s tc)))).
+Proof.
+  unfold step, sys_step. destruct tc as [t c].
+  destruct (nth_error (thr s) t) as [l|] eqn:Hl; [|apply hle_refl].
+  destruct (tstep t c (gl s) l) as [[[g' l'] es]|] eqn:Hs; [|apply hle_refl]. cbn [fst gl].
+  eapply stepk_hle. eapply tstep_stepk. exact Hs.
+Qed.
+Lemma run_hle sched : forall s : sysD, hle (heap (ct (gl s))) (heap (ct (gl (runD s sched)))).
+Proof.
+  apply (run_rel glob loc tstep (fun a b => hle (heap (ct (gl a))) (heap (ct (gl b))))).
+  - intros; apply hle_refl.
+  - intros a b c0; apply hle_trans.
+  - apply step_hle.
+Qed.
+Lemma stable (s s' : sysD) q k key st :
+  reachable glob loc tstep s s' -> nth_error (heap (ct (gl s))) q = Some (Cell k key st) -> st <> Unset ->
+  nth_error (heap (ct (gl s'))) q = Some (Cell k key st).
+Proof.
+  intros [sc ->] Hq Hne. destruct (run_hle sc s _ _ _ _ Hq) as [st' [E F]]. rewrite (F Hne) in E. exact E.
+Qed.
+Lemma stable_get (s s' : sysD) p : reachable glob loc tstep s s' ->
+  fut_ready (heap (ct (gl s))) (Some p) = 1 ->
+  fut_ready (heap (ct (gl s'))) (Some p) = 1 /\
+  fut_get (heap (ct (gl s'))) (Some p) = fut_get (heap (ct (gl s))) (Some p).
+Proof.
+  intros Hr H1. cbn [fut_get fut_ready] in *.
+  destruct (nth_error (heap (ct (gl s))) p) as [[k key st]|] eqn:E; [|discriminate].
+  destruct st; [discriminate| |]; rewrite (stable s s' _ _ _ _ Hr E); try discriminate; auto.
+Qed.
+
+(* ---------- the value a future gets ---------- *)
+(* setDelayedValue(key, X&&): the lock step does everything *)
+Lemma set_wins_move ns pl progs s t c l g' l' es k key v q :
+  R ns pl progs s -> nth_error (thr s) t = Some l -> at_ l = P_lock (SetValue true k key v) ->
+  tstep t c (gl s) l = Some (g', l', es) -> afind key (pend (ct (gl s)) k) = Some q ->
+  nth_error (heap (ct (gl s))) q = Some (Cell k key Unset) /\
+  nth_error (heap (ct g')) q = Some (Cell k key (SetV v)) /\
+  (forall q', q' <> q -> nth_error (heap (ct g')) q' = nth_error (heap (ct (gl s))) q') /\
+  at_ l' = P_unlock (ORet 0).
+Proof.
+  intros HR Hl Ha Hs Hf. apply tstep_stepk in Hs. destruct Hs; try congruence.
+  rewrite Ha in H. inversion H; subst o.
+  destruct (apply_set_pending _ true _ _ v _ (R_cinv _ _ _ _ HR) Hf) as [c1 [Hap [H2 [H3 H4]]]].
+  cbn [enter] in H1. rewrite Hap in H1. inversion H1; subst. cbn [ct at_ out_of]. auto.
+Qed.
+(* setDelayedValue(key, const X&): the step of the (non-throwing) copy does it *)
+Lemma set_wins_copy ns pl progs s t c l g' l' es k key v q :
+  R ns pl progs s -> nth_error (thr s) t = Some l -> at_ l = P_call (SetValue false k key v) ->
+  throws (gl s) = false ->
+  tstep t c (gl s) l = Some (g', l', es) -> afind key (pend (ct (gl s)) k) = Some q ->
+  nth_error (heap (ct (gl s))) q = Some (Cell k key Unset) /\
+  nth_error (heap (ct g')) q = Some (Cell k key (SetV v)) /\
+  (forall q', q' <> q -> nth_error (heap (ct g')) q' = nth_error (heap (ct (gl s))) q') /\
+  at_ l' = P_unlock (ORet 0).
+Proof.
+  intros HR Hl Ha Hth Hs Hf. apply tstep_stepk in Hs. destruct Hs; try congruence.
+  rewrite Ha in H. inversion H; subst o.
+  destruct (apply_set_pending _ false _ _ v _ (R_cinv _ _ _ _ HR) Hf) as [c1 [Hap [H2 [H3 H4]]]].
+  rewrite Hap in H1. inversion H1; subst. cbn [ct at_ out_of]. auto.
+Qed.
+(* a key is pending whenever a thread waits at the copy inside setDelayedValue *)
+Lemma at_copy_pending ns pl progs s t l o : R ns pl progs s ->
+  nth_error (thr s) t = Some l -> at_ l = P_call o ->
+  exists k key v q, o = SetValue false k key v /\ afind key (pend (ct (gl s)) k) = Some q /\
+                    nth_error (heap (ct (gl s))) q = Some (Cell k key Unset) /\ mtx (gl s) = Some t.
+Proof.
+  intros HR Hl Ha.
+  destruct (G_call _ _ (R_good _ _ _ _ HR) t o (eq_trans (pcof_at _ _ _ Hl) Ha)) as [_ [k [key [v [q [-> Hf]]]]]].
+  exists k, key, v, q. repeat split; auto.
+  - apply (C_pend _ (R_cinv _ _ _ _ HR)). apply afind_In. exact Hf.
+  - apply (B_owner _ _ (R_base _ _ _ _ HR)). rewrite (pcof_at _ _ _ Hl), Ha. reflexivity.
+Qed.
+(* do_set_exn_keeps_pending: a throwing copy in setDelayedValue changes nothing: the key is still
+   pending with its promise unsatisfied; the next step releases the mutex *)
+Lemma set_exn_keeps_pending ns pl progs s t c l g' l' es o :
+  R ns pl progs s -> nth_error (thr s) t = Some l -> at_ l = P_call o ->
+  throws (gl s) = true -> tstep t c (gl s) l = Some (g', l', es) ->
+  ct g' = ct (gl s) /\ at_ l' = P_unlock OExn /\ faulted g' = false /\
+  exists k key v q, o = SetValue false k key v /\ afind key (pend (ct g') k) = Some q /\
+                    nth_error (heap (ct g')) q = Some (Cell k key Unset).
+Proof.
+  intros HR Hl Ha Hth Hs.
+  destruct (at_copy_pending _ _ _ _ _ _ _ HR Hl Ha) as [k [key [v [q [-> [Hf [Hq _]]]]]]].
+  pose proof (G_nf _ _ (R_good _ _ _ _ HR)) as Hnf.
+  apply tstep_stepk in Hs. destruct Hs; try congruence. cbn [ct at_ faulted].
+  repeat split; auto. exists k, key, v, q. auto.
+Qed.
+Lemma unlock_step t c g l g' l' es out : tstep t c g l = Some (g', l', es) -> at_ l = P_unlock out ->
+  es = unlock_evs out /\ at_ l' = Idle /\ ct g' = ct g /\ mtx g' = None /\ faulted g' = faulted g.
+Proof.
+  intros Hs Ha. apply tstep_stepk in Hs. destruct Hs; try congruence.
+  rewrite Ha in H. inversion H; subst. cbn. repeat split; reflexivity.
+Qed.
+
+(* setDelayedValue for a key that is not pending: nothing changes, no copy is made *)
+Lemma set_noop t c g l g' l' es mv k key v :
+  at_ l = P_lock (SetValue mv k key v) -> tstep t c g l = Some (g', l', es) -> ahas key (pend (ct g) k) = false ->
+  ct g' = ct g /\ at_ l' = P_unlock (ORet 0).
+Proof.
+  intros Ha Hs Hf.
+  assert (Hn : afind key (pend (ct g) k) = None) by (unfold ahas in Hf; destruct (afind key (pend (ct g) k)); [discriminate|reflexivity]).
+  apply tstep_stepk in Hs. destruct Hs; try congruence.
+  rewrite Ha in H. inversion H; subst o. cbn [enter] in H1. destruct mv.
+  - rewrite (apply_set_noop _ true _ _ v Hn) in H1. inversion H1; subst. cbn. auto.
+  - rewrite Hn in H1. inversion H1; subst. cbn. auto.
+Qed.
+
+(* fulfillAllPromises, one (non-throwing) copy: exactly the body of setDelayedValue for the key at the
+   iterator: that promise - and no other - gets v, the key moves from the pending to the used map *)
+Lemma fulfill_step ns pl progs s t c l g' l' es v k key q r c0 :
+  R ns pl progs s -> nth_error (thr s) t = Some l -> at_ l = P_ful v k key q r c0 ->
+  throws (gl s) = false -> tstep t c (gl s) l = Some (g', l', es) ->
+  apply (SetValue true k key v) (ct (gl s)) = (ct g', 0, false) /\
+  nth_error (heap (ct (gl s))) q = Some (Cell k key Unset) /\
+  nth_error (heap (ct g')) q = Some (Cell k key (SetV v)) /\
+  (forall q', q' <> q -> nth_error (heap (ct g')) q' = nth_error (heap (ct (gl s))) q') /\
+  (is_ful (at_ l') = true \/ (at_ l' = P_unlock (ORet 0) /\ pend (ct g') false = [] /\ pend (ct g') true = [])).
+Proof.
+  intros HR Hl Ha Hth Hs. pose proof (R_cinv _ _ _ _ HR) as HC.
+  destruct (G_ful _ _ (R_good _ _ _ _ HR) t _ _ _ _ _ _ (eq_trans (pcof_at _ _ _ Hl) Ha)) as [Hpe [Hk _]].
+  assert (Hq : afind key (pend (ct (gl s)) k) = Some q) by (rewrite Hpe; cbn; rewrite Z.eqb_refl; reflexivity).
+  destruct (apply_set_pending _ true _ _ v _ HC Hq) as [c1 [Hap1 [Hq0 [Hq1 Hqo]]]].
+  apply tstep_stepk in Hs. destruct Hs; try congruence.
+  - exfalso. rewrite Ha in H. injection H as <- <- <- <- <- <-.
+    match goal with Hn : set_value ?qq ?vv _ = None |- _ => destruct (set_value_ok qq vv _ _ _ Hq0) as [h1 E]; congruence end.
+  - rewrite Ha in H. injection H as <- <- <- <- <- <-. cbn [ct at_].
+    pose proof (iter_is_set _ true _ _ _ _ _ _ Hpe H1) as Hap. rewrite Hap in Hap1. inversion Hap1; subst c1.
+    destruct (apply_CInv _ _ _ _ _ HC Hap) as [HC' _].
+    destruct (iter_pend _ _ _ _ _ h1 HC Hpe) as [Hpe' Hpo].
+    assert (Hk' : k = true -> pend (iter false (ct (gl s)) k key q h1) false = []).
+    { intros ->. rewrite Hpo by discriminate. apply Hk. reflexivity. }
+    destruct (ful_goto_spec _ _ _ _ _ _ _ _ HC' Hpe' Hk' H2) as [_ [-> Hcases]].
+    repeat split; auto.
+    destruct Hcases as [[k' [key' [q' [r' [-> _]]]]]|[-> [E1 E2]]]; [left; reflexivity|right; auto].
+Qed.
+(* when the method gets through both loops: both pending maps are empty, hence no promise at all is
+   unsatisfied, and every promise that was unsatisfied when the lock was taken holds v *)
+Lemma fulfill_completes ns pl progs s t c l g' l' es v k key q r c0 :
+  R ns pl progs s -> nth_error (thr s) t = Some l -> at_ l = P_ful v k key q r c0 ->
+  tstep t c (gl s) l = Some (g', l', es) -> at_ l' = P_unlock (ORet 0) ->
+  pend (ct g') false = [] /\ pend (ct g') true = [] /\
+  (forall i x, nth_error (heap (ct g')) i = Some x -> cst x <> Unset) /\
+  (forall i ki keyi, nth_error (heap c0) i = Some (Cell ki keyi Unset) ->
+     nth_error (heap (ct g')) i = Some (Cell ki keyi (SetV v))).
+Proof.
+  intros HR Hl Ha Hs Ha'.
+  assert (HR' : R ns pl progs (Sys g' (upd (thr s) t l'))).
+  { destruct HR as [sc ->]. exists (sc ++ [(t, c)]). rewrite run_app. cbn. unfold step, sys_step. rewrite Hl, Hs. reflexivity. }
+  pose proof (R_cinv _ _ _ _ HR') as HC'. cbn [gl] in HC'.
+  destruct (G_ful _ _ (R_good _ _ _ _ HR) t _ _ _ _ _ _ (eq_trans (pcof_at _ _ _ Hl) Ha)) as [Hpe [Hk [_ HJ]]].
+  assert (Hth : throws (gl s) = false).
+  { destruct (throws (gl s)) eqn:E; [|reflexivity]. apply tstep_stepk in Hs. destruct Hs; try congruence.
+    rewrite Ha in H. inversion H; subst. cbn in Ha'. discriminate. }
+  destruct (fulfill_step _ _ _ _ _ _ _ _ _ _ _ _ _ _ _ _ HR Hl Ha Hth Hs) as [_ [Hq0 [Hq1 [Hqo [Hf|[_ [E1 E2]]]]]]];
+    [rewrite Ha' in Hf; discriminate|].
+  assert (Hno : forall i x, nth_error (heap (ct g')) i = Some x -> cst x <> Unset).
+  { intros i [ki keyi st] Hi. cbn. intros ->. pose proof (C_unset _ HC' _ _ _ Hi) as Hin.
+    destruct ki; [rewrite E2 in Hin|rewrite E1 in Hin]; exact Hin. }
+  repeat split; auto.
+  intros i ki keyi Hi. destruct (Nat.eq_dec i q) as [->|Hne].
+  - destruct (HJ _ _ _ Hi) as [Hu|Hs']; rewrite Hq0 in *; [inversion Hu; subst; exact Hq1|discriminate].
+  - destruct (HJ _ _ _ Hi) as [Hu|Hs']; rewrite <- (Hqo _ Hne) in *; [|exact Hs'].
+    exfalso. apply (Hno _ _ Hu). reflexivity.
+Qed.
+
+(* ---------- every completed critical section is the sequential body ---------- *)
+Lemma section_lock ns pl progs s t c l g' l' es o rv :
+  R ns pl progs s -> nth_error (thr s) t = Some l -> at_ l = P_lock o -> (forall v, o <> FulfillAll v) ->
+  tstep t c (gl s) l = Some (g', l', es) -> at_ l' = P_unlock (ORet rv) ->
+  apply o (ct (gl s)) = (ct g', rv, false) /\ hist g' = hist (gl s) ++ [(t, o, ORet rv)].
+Proof.
+  intros HR Hl Ha Hnf Hs Ha'. apply tstep_stepk in Hs. destruct Hs; try congruence.
+  rewrite Ha in H. inversion H; subst o0.
+  destruct (enter_spec _ _ _ _ _ (R_cinv _ _ _ _ HR) H1) as [_ [[k [key [v [q [_ [-> _]]]]]]|[[rv0 [_ [-> Hap]]]|[v [-> _]]]]];
+    cbn [at_] in Ha'; try discriminate.
+  - inversion Ha'; subst rv0. cbn [ct hist log_out]. auto.
+  - exfalso. eapply Hnf; reflexivity.
+Qed.
+Lemma section_copy ns pl progs s t c l g' l' es o :
+  R ns pl progs s -> nth_error (thr s) t = Some l -> at_ l = P_call o ->
+  throws (gl s) = false -> tstep t c (gl s) l = Some (g', l', es) ->
+  exists rv, at_ l' = P_unlock (ORet rv) /\ apply o (ct (gl s)) = (ct g', rv, false) /\
+             hist g' = hist (gl s) ++ [(t, o, ORet rv)].
+Proof.
+  intros HR Hl Ha Hth Hs. apply tstep_stepk in Hs. destruct Hs; try congruence.
+  rewrite Ha in H. inversion H; subst o0.
+  destruct (apply_CInv _ _ _ _ _ (R_cinv _ _ _ _ HR) H1) as [_ ->]. exists rv. cbn. auto.
+Qed.
+
+(* ---------- destruction: do_never_hangs, do_fulfilled_once ---------- *)
+Definition requested_once (h : heap_t) (q : nat) (k : bool) (key : Z) : Prop :=
+  forall q' st', nth_error h q' = Some (Cell k key st') -> q' = q.
+
+Lemma destroyed ns pl progs s : R ns pl progs s ->
+  exists h', destroy (ct (gl s)) = Some h' /\ length h' = length (heap (ct (gl s))) /\
+    (forall q k key st, nth_error (heap (ct (gl s))) q = Some (Cell k key st) ->
+       nth_error h' q = Some (Cell k key (settle 0 st))).
+Proof. intros HR. apply destroy_spec. eapply R_cinv; eauto. Qed.
+
+Lemma never_hangs ns pl progs s h' : R ns pl progs s -> destroy (ct (gl s)) = Some h' ->
+  (forall q x, nth_error h' q = Some x -> cst x <> Unset) /\
+  (forall u l i p, nth_error (thr s) u = Some l -> nth_error (slots l) i = Some (Some p) ->
+     fut_ready h' (Some p) = 1).
+Proof.
+  intros HR Hd. destruct (destroyed _ _ _ _ HR) as [h'' [Hd' [Hlen Hcell]]]. rewrite Hd in Hd'. inversion Hd'; subst h''.
+  assert (Hno : forall q x, nth_error h' q = Some x -> cst x <> Unset).
+  { intros q x Hq. destruct (nth_error (heap (ct (gl s))) q) as [[k key st]|] eqn:E.
+    - rewrite (Hcell _ _ _ _ E) in Hq. inversion Hq; subst. cbn. destruct st; discriminate.
+    - apply nth_error_None in E. assert (q < length h')%nat by (apply nth_error_Some; congruence). lia. }
+  split; [exact Hno|]. intros u l i p Hu Hi.
+  pose proof (B_slots _ _ (R_base _ _ _ _ HR) _ _ _ _ Hu Hi) as Hp.
+  cbn [fut_ready]. destruct (nth_error h' p) as [[k key st]|] eqn:E.
+  - specialize (Hno _ _ E). cbn in Hno. destruct st; congruence.
+  - apply nth_error_None in E. lia.
+Qed.
+Lemma fulfilled_once ns pl progs s h' q k key st :
+  R ns pl progs s -> destroy (ct (gl s)) = Some h' ->
+  nth_error (heap (ct (gl s))) q = Some (Cell k key st) -> requested_once (heap (ct (gl s))) q k key ->
+  st <> Broken /\ exists v, nth_error h' q = Some (Cell k key (SetV v)) /\ (st = SetV v \/ (st = Unset /\ v = 0)).
+Proof.
+  intros HR Hd Hq Honce. destruct (destroyed _ _ _ _ HR) as [h'' [Hd' [Hlen Hcell]]]. rewrite Hd in Hd'. inversion Hd'; subst h''.
+  assert (Hnb : st <> Broken).
+  { intros ->. destruct (C_broken _ (R_cinv _ _ _ _ HR) _ _ _ Hq) as [q' [st' [Hlt Hq']]].
+    specialize (Honce _ _ Hq'). lia. }
+  split; [exact Hnb|]. specialize (Hcell _ _ _ _ Hq). destruct st; cbn [settle] in Hcell.
+  - exists 0. auto.
+  - exists v. auto.
+  - congruence.
+Qed.
+Lemma broken_only_by_rerequest ns pl progs s q k key :
+  R ns pl progs s -> nth_error (heap (ct (gl s))) q = Some (Cell k key Broken) ->
+  exists q' st, (q < q')%nat /\ nth_error (heap (ct (gl s))) q' = Some (Cell k key st).
+Proof. intros HR. apply (C_broken _ (R_cinv _ _ _ _ HR)). Qed.
+Lemma provenance ns pl progs s q k key v : R ns pl progs s ->
+  nth_error (heap (ct (gl s))) q = Some (Cell k key (SetV v)) ->
+  exists t, (exists mv, In (t, SetValue mv k key v) (began (gl s))) \/ In (t, FulfillAll v) (began (gl s)).
+Proof. intros HR. apply (G_prov _ _ (R_good _ _ _ _ HR)). Qed.
+Lemma slots_valid ns pl progs s u l i p : R ns pl progs s ->
+  nth_error (thr s) u = Some l -> nth_error (slots l) i = Some (Some p) ->
+  exists k key st, nth_error (heap (ct (gl s))) p = Some (Cell k key st).
+Proof.
+  intros HR Hu Hi. pose proof (B_slots _ _ (R_base _ _ _ _ HR) _ _ _ _ Hu Hi) as Hp.
+  destruct (nth_error (heap (ct (gl s))) p) as [[k key st]|] eqn:E; [eauto|].
+  apply nth_error_None in E. lia.
+Qed.
+Lemma both_only_rerequested c k key : CInv c -> abs c k key = (true, true) ->
+  exists q q' st st', q <> q' /\ nth_error (heap c) q = Some (Cell k key st) /\
+                      nth_error (heap c) q' = Some (Cell k key st').
+Proof.
+  intros HC Hab. unfold abs in Hab.
+  assert (H1 : ahas key (pend c k) = true) by congruence.
+  assert (H2 : ahas key (used c k) = true) by congruence.
+  apply ahas_true in H1. apply ahas_true in H2. destruct H1 as [q H1], H2 as [q' H2].
+  pose proof (C_pend _ HC _ _ _ H1) as E1. destruct (C_used _ HC _ _ _ H2) as [v E2].
+  exists q, q', Unset, (SetV v). repeat split; auto. intros ->. congruence.
+Qed.
+
+(* ---------- do_linearizable / do_atomic_sections ---------- *)
+Lemma linearizable ns pl progs s : R ns pl progs s -> replay (hist (gl s)) cont0 = Some (ct (gl s)).
+Proof. intros HR. apply (G_cinv _ _ (R_good _ _ _ _ HR)). Qed.
+
+(* the two ghost logs: `began` gets the call at its lock step; `hist` is extended only by steps of the
+   owner of the lock (or of the thread acquiring it), i.e. between that call's invoke and return *)
+Lemma lin_point t c g l g' l' es : tstep t c g l = Some (g', l', es) ->
+  match at_ l with
+  | P_lock o => began g' = began g ++ [(t, o)] /\ mtx g = None /\ mtx g' = Some t
+  | _ => began g' = began g
+  end /\
+  (hist g' = hist g \/
+   (exists x, hist g' = hist g ++ x /\ (forall e, In e x -> fst (fst e) = t) /\
+              holds (at_ l') = true /\ (is_lock (at_ l) = true \/ holds (at_ l) = true))).
+Proof.
+  intros Hs. apply tstep_stepk in Hs. destruct Hs; cbn [began hist mtx at_];
+    match goal with Ha : at_ _ = _ |- _ => rewrite Ha end; cbn [is_lock holds]; try (split; [auto|left; reflexivity]; fail).
+  - split; [auto|]. pose proof (enter_holds _ _ _ _ _ H1) as Hh.
+    destruct p' as [| | | |out]; cbn [log_out]; try (left; reflexivity).
+    destruct out; [right; eexists [_]; repeat split; auto; intros e [<-|[]]; reflexivity|left; reflexivity|
+                   right; eexists [_]; repeat split; auto; intros e [<-|[]]; reflexivity].
+  - split; [reflexivity|]. right. eexists [_]. repeat split; auto. intros e [<-|[]]; reflexivity.
+  - split; [reflexivity|]. destruct flt; cbn [out_of log_out]; [left; reflexivity|].
+    right. eexists [_]. repeat split; auto. intros e [<-|[]]; reflexivity.
+  - split; [reflexivity|]. right. eexists [_]. repeat split; auto. intros e [<-|[]]; reflexivity.
+  - split; [reflexivity|]. pose proof (ful_goto_holds _ _ _ _ _ _ _ _ H2) as Hh. right.
+    destruct p' as [| | | |out]; cbn [log_out].
+    1-4: eexists [_]; repeat split; auto; intros e [<-|[]]; reflexivity.
+    destruct out; [|eexists [_]; repeat split; auto; intros e [<-|[]]; reflexivity|].
+    all: rewrite <- app_assoc; eexists [_; _]; repeat split; auto; intros e [<-|[<-|[]]]; reflexivity.
+Qed.
+
+(* the container changes only in steps of a thread that is taking or owns promiseLock *)
+Lemma ct_changes_only_in_cs t c g l g' l' es :
+  tstep t c g l = Some (g', l', es) -> is_lock (at_ l) = false -> holds (at_ l) = false -> ct g' = ct g.
+Proof.
+  intros Hs Hn Hh. apply tstep_stepk in Hs. destruct Hs; cbn [ct]; try reflexivity;
+    match goal with Ha : at_ _ = _ |- _ => rewrite Ha in Hn, Hh end; discriminate.
+Qed.
+Lemma mutual_exclusion ns pl progs s u u' :
+  R ns pl progs s -> holds (pcof (thr s) u) = true -> holds (pcof (thr s) u') = true -> u = u'.
+Proof.
+  intros HR H1 H2. pose proof (R_base _ _ _ _ HR) as HB.
+  pose proof (B_owner _ _ HB _ H1). pose proof (B_owner _ _ HB _ H2). congruence.
+Qed.
+Lemma in_section_owns ns pl progs s u : R ns pl progs s ->
+  (holds (pcof (thr s) u) = true <-> mtx (gl s) = Some u).
+Proof.
+  intros HR. pose proof (R_base _ _ _ _ HR) as HB. split; [apply (B_owner _ _ HB)|apply (B_held _ _ HB)].
+Qed.
+
+(* ---------- liveness ---------- *)
+Lemma holder_enabled ns pl progs s a c : R ns pl progs s -> mtx (gl s) = Some a -> enabledD s a c.
+Proof.
+  intros HR Hm. pose proof (B_held _ _ (R_base _ _ _ _ HR) a Hm) as Hh. unfold pcof in Hh.
+  destruct (nth_error (thr s) a) as [l|] eqn:Hl; [|discriminate].
+  assert (exists r, tstep a c (gl s) l = Some r) as [r Hr]; [|exists l, r; auto].
+  destruct l as [pr p sl]. cbn in Hh. unfold tstep, tstep_gen. cbn [at_ prog slots]. destruct p; try discriminate.
+  - destruct (throws (gl s)); [eexists; reflexivity|].
+    destruct (apply o (ct (gl s))) as [[c' rv] flt]. eexists; reflexivity.
+  - destruct (throws (gl s)); [eexists; reflexivity|].
+    destruct (set_value q v (heap (ct (gl s)))) as [h1|]; [|eexists; reflexivity].
+    destruct (ful_goto false v c0 _ k r) as [[c' p'] flt]. eexists; reflexivity.
+  - eexists; reflexivity.
+Qed.
+
+(* a method can be disabled only while it waits for promiseLock, and then the owner can move *)
+Lemma blocks_only_on_mutex ns pl progs s t c l :
+  R ns pl progs s -> nth_error (thr s) t = Some l -> fin l = false -> tstep t c (gl s) l = None ->
+  exists o a, at_ l = P_lock o /\ mtx (gl s) = Some a /\ a <> t /\ enabledD s a 0.
+Proof.
+  intros HR Hl Hf Hs.
+  destruct (at_ l) as [|o|o|v k key q r c0|out] eqn:Ha.
+  - exfalso. destruct l as [pr p sl]. cbn in Ha. subst p. unfold tstep, tstep_gen in Hs. cbn [at_ prog slots] in *.
+    destruct pr as [|o r]; [discriminate|]. destruct o; discriminate.
+  - destruct (mtx (gl s)) as [a|] eqn:Hm.
+    + exists o, a. repeat split; auto.
+      * intros ->. pose proof (B_held _ _ (R_base _ _ _ _ HR) t Hm) as Hh. rewrite (pcof_at _ _ _ Hl), Ha in Hh. discriminate.
+      * eapply holder_enabled; eauto.
+    + exfalso. unfold tstep, tstep_gen in Hs. rewrite Ha, Hm in Hs. destruct (enter false o (ct (gl s))) as [[c' p'] flt]. discriminate.
+  - exfalso. assert (mtx (gl s) = Some t) as Hm.
+    { apply (B_owner _ _ (R_base _ _ _ _ HR)). rewrite (pcof_at _ _ _ Hl), Ha. reflexivity. }
+    destruct (holder_enabled _ _ _ _ _ c HR Hm) as [l0 [r0 [Hl0 Hr0]]]. congruence.
+  - exfalso. assert (mtx (gl s) = Some t) as Hm.
+    { apply (B_owner _ _ (R_base _ _ _ _ HR)). rewrite (pcof_at _ _ _ Hl), Ha. reflexivity. }
+    destruct (holder_enabled _ _ _ _ _ c HR Hm) as [l0 [r0 [Hl0 Hr0]]]. congruence.
+  - exfalso. assert (mtx (gl s) = Some t) as Hm.
+    { apply (B_owner _ _ (R_base _ _ _ _ HR)). rewrite (pcof_at _ _ _ Hl), Ha. reflexivity. }
+    destruct (holder_enabled _ _ _ _ _ c HR Hm) as [l0 [r0 [Hl0 Hr0]]]. congruence.
+Qed.
+
+(* no deadlock, no hang: when nothing can move, every program has run to completion *)
+Lemma quiescent_all_fin ns pl progs s : R ns pl progs s -> quiescentD s -> all_fin glob loc fin s = true.
+Proof.
+  intros HR HQ. unfold all_fin. apply forallb_forall. intros l Hin.
+  apply In_nth_error in Hin. destruct Hin as [t Hl].
+  destruct (fin l) eqn:Hf; [reflexivity|exfalso].
+  destruct (tstep t 0 (gl s) l) as [r|] eqn:Hs.
+  - apply (HQ t 0%nat); [lia|]. exists l, r. auto.
+  - destruct (blocks_only_on_mutex _ _ _ _ _ _ _ HR Hl Hf Hs) as [o [a [_ [_ [_ He]]]]].
+    apply (HQ a 0%nat); [lia|exact He].
+Qed.
+
+(* ---------- do_never_twice_unfixed_refuted: the header before repair b8719b7 ---------- *)
+(* one thread: two int keys requested; fulfillAllPromises whose second copy throws; then setDelayedValue
+   for the first key.  tstep_gen true = the loop that does not erase and clear()s at the end. *)
+Definition bad_progs : list (list op) :=
+  [[GetFuture false 1 0; GetFuture false 2 1; FulfillAll 5000; SetValue false false 1 77]].
+Definition bad_sched : list (nat * nat) := repeat (0%nat, 0%nat) 14.
+Definition bad_state_unfixed : sysD := run glob loc (tstep_gen true) (init 2 [1] bad_progs) bad_sched.
+Lemma never_twice_unfixed_refuted :
+  faulted (gl bad_state_unfixed) = true /\
+  all_fin glob loc fin bad_state_unfixed = true /\ mtx (gl bad_state_unfixed) = None /\
+  destroy (ct (gl bad_state_unfixed)) = None /\
+  ahas 1 (pend (ct (gl bad_state_unfixed)) false) = true /\ ahas 1 (used (ct (gl bad_state_unfixed)) false) = true /\
+  fut_get (heap (ct (gl bad_state_unfixed))) (Some 0%nat) = 5000 /\
+  fut_get (heap (ct (gl bad_state_unfixed))) (Some 1%nat) = C_NOTREADY.
+Proof. vm_compute. repeat split; reflexivity. Qed.
+
+(* ---------- bounded work ---------- *)
+(* the pending maps never hold more entries than getFuture calls were written in the programs:
+   N bounds the length of every fulfillAllPromises loop *)
+Definition getf_op (o : op) : nat := match o with GetFuture _ _ _ => 1 | _ => 0 end.
+Definition getfs_prog (p : list op) : nat := list_sum (map getf_op p).
+Definition getf_loc (l : loc) : nat :=
+  (getfs_prog (prog l) + match at_ l with P_lock o | P_call o => getf_op o | _ => 0 end)%nat.
+Definition Phi (c : cont) : nat := (length (pend c false) + length (pend c true))%nat.
+Definition PInv (N : nat) (g : glob) (ls : list loc) : Prop := (Phi (ct g) + list_sum (map getf_loc ls) <= N)%nat.
+
+Lemma apply_phi o c c' rv flt : apply o c = (c', rv, flt) -> (Phi c' <= Phi c + getf_op o)%nat.
+Proof.
+  intros Ha. unfold Phi. destruct o; cbn [apply getf_op] in *.
+  - inversion Ha; subst. cbn [pend]. destruct k; unfold setf; cbn;
+      [pose proof (aput_length key (length (heap c)) (pend c true))|pose proof (aput_length key (length (heap c)) (pend c false))]; lia.
+  - destruct (afind key (pend c k)); [|inversion Ha; subst; lia].
+    destruct (set_value n v (heap c)); inversion Ha; subst; [|lia]. cbn [pend].
+    destruct k; unfold setf; cbn; [pose proof (adel_length key (pend c true))|pose proof (adel_length key (pend c false))]; lia.
+  - destruct (finish v false (pend c false) c) as [cf|] eqn:Hf; inversion Ha; subst; [|lia].
+    unfold finish in Hf. destruct (fulfill (pend c false) v (used c false) (heap c)) as [[u0 h0]|]; [|discriminate].
+    destruct (fulfill (pend c true) v (used c true) h0) as [[u1 h1]|]; inversion Hf; subst. cbn. lia.
+  - inversion Ha; subst; lia.
+  - inversion Ha; subst; lia.
+  - inversion Ha; subst. cbn [pend]. lia.
+  - inversion Ha; subst; lia.
+  - inversion Ha; subst; lia.
+Qed.
+Lemma ful_goto_phi v c0 c k r c' p' flt : ful_goto false v c0 c k r = (c', p', flt) -> (Phi c' <= Phi c)%nat.
+Proof.
+  intros H. destruct (ful_goto_cases _ _ _ _ _ _ _ _ H) as [[k' [key [q [r' [_ [-> _]]]]]]|[[_ [_ ->]]|[_ [-> _]]]]; lia.
+Qed.
+Lemma iter_phi c k key q h1 : (Phi (iter false c k key q h1) <= Phi c)%nat.
+Proof.
+  unfold Phi, iter. cbn [pend]. destruct k; unfold setf; cbn;
+    [pose proof (adel_length key (pend c true))|pose proof (adel_length key (pend c false))]; lia.
+Qed.
+Lemma enter_phi o c c' p' flt : enter false o c = (c', p', flt) -> (Phi c' <= Phi c + getf_op o)%nat.
+Proof.
+  intros He. destruct o; cbn [enter] in He;
+    try solve [destruct (apply _ c) as [[c1 rv] fl] eqn:Ha; inversion He; subst; eapply apply_phi; exact Ha].
+  - destruct mv; [destruct (apply (SetValue true k key v) c) as [[c1 rv] fl] eqn:Ha; inversion He; subst; eapply apply_phi; exact Ha|].
+    destruct (afind key (pend c k)); [destruct (is_unset (heap c) n)|]; inversion He; subst; lia.
+  - pose proof (ful_goto_phi _ _ _ _ _ _ _ _ He). cbn. lia.
+Qed.
+
+Lemma PInv_step N t g ls l g' l' es : PInv N g ls -> nth_error ls t = Some l -> stepk t g l g' l' es ->
+  PInv N g' (upd ls t l').
+Proof.
+  unfold PInv. intros HP Hl Hs. pose proof (sum_upd getf_loc ls t l l' Hl) as Hsum.
+  assert (Hgoal : (Phi (ct g') + getf_loc l' <= Phi (ct g) + getf_loc l)%nat -> (Phi (ct g') + list_sum (map getf_loc (upd ls t l')) <= N)%nat) by lia.
+  apply Hgoal. clear Hgoal Hsum HP. unfold getf_loc.
+  destruct Hs; cbn [ct prog at_]; match goal with Ha : at_ _ = _ |- _ => rewrite Ha end; try lia.
+  - rewrite H0. unfold getfs_prog. simpl. lia.
+  - rewrite H0. unfold getfs_prog. simpl. destruct o; cbn in *; try lia; discriminate.
+  - pose proof (enter_phi _ _ _ _ _ H1).
+    destruct (enter_cases _ _ _ _ _ H1) as [[-> [-> _]]|[[v [k [key [q [r [_ [-> _]]]]]]]|[out ->]]]; lia.
+  - pose proof (apply_phi _ _ _ _ _ H1). lia.
+  - pose proof (ful_goto_phi _ _ _ _ _ _ _ _ H2) as Hphi. pose proof (iter_phi (ct g) k key q h1).
+    destruct (ful_goto_cases _ _ _ _ _ _ _ _ H2) as [[k' [key' [q' [r' [-> _]]]]]|[[-> _]|[-> _]]]; lia.
+Qed.
+
+(* the measure: every call costs at most 2N+6 steps (N = number of getFuture calls in the programs) *)
+Definition wpc (N : nat) (p : pc) : nat :=
+  match p with
+  | Idle => 0
+  | P_lock _ => 2 * N + 5
+  | P_call _ => 2
+  | P_ful _ false _ _ r c0 => length r + length (pend c0 true) + 2
+  | P_ful _ true _ _ r _ => length r + 2
+  | P_unlock _ => 1
+  end.
+Definition wloc (N : nat) (l : loc) : nat := ((2 * N + 6) * length (prog l) + wpc N (at_ l))%nat.
+Definition mu (N : nat) (s : sysD) : nat := list_sum (map (wloc N) (thr s)).
+Definition any_choice (c : nat) : bool := true.
+Definition Inv2 (N : nat) (g : glob) (ls : list loc) : Prop := Inv g ls /\ PInv N g ls.
+
+Lemma Inv2_step N : forall g ls t c l g' l' es,
+  Inv2 N g ls -> nth_error ls t = Some l -> tstep t c g l = Some (g', l', es) -> Inv2 N g' (upd ls t l').
+Proof.
+  intros g ls t c l g' l' es [HI HP] Hl Hs. split; [eapply Inv_step; eauto|].
+  eapply PInv_step; eauto. eapply tstep_stepk; eauto.
+Qed.
+
+Lemma ful_goto_w N v c0 c k r c' p' flt : ful_goto false v c0 c k r = (c', p', flt) ->
+  (k = false -> pend c true = pend c0 true) ->
+  (wpc N p' <= length r + (if k then 0 else length (pend c0 true)) + 1)%nat.
+Proof.
+  unfold ful_goto. intros H E. destruct r as [|[key q] r'].
+  - destruct k; [inversion H; subst; cbn; lia|]. rewrite (E eq_refl) in H.
+    destruct (pend c0 true) as [|[key q] r']; [inversion H; subst; cbn; lia|].
+    destruct (is_unset (heap c) q); inversion H; subst; cbn; lia.
+  - destruct (is_unset (heap c) q); inversion H; subst; [destruct k|]; cbn; lia.
+Qed.
+
+Lemma mu_dec N s t c : Inv2 N (gl s) (thr s) -> any_choice c = true -> enabledD s t c ->
+  (mu N (stepD s (t, c)) < mu N s)%nat.
+Proof.
+  intros [[HB _] HP] _ [l [r [Hl Hs]]]. destruct r as [[g' l'] es].
+  unfold step, sys_step. rewrite Hl, Hs. cbn [fst]. unfold mu. cbn [gl thr].
+  apply (sum_step_dec (wloc N) (wloc N) (thr s) t l l' Hl); [intros; lia|].
+  assert (HPhi : (Phi (ct (gl s)) <= N)%nat) by (unfold PInv in HP; lia).
+  pose proof (pcof_at _ _ _ Hl) as Hp.
+  apply tstep_stepk in Hs. unfold wloc. destruct Hs; cbn [prog at_]; rewrite ?H, ?H0; cbn [length wpc]; try lia.
+  - (* lock *)
+    destruct (enter_cases _ _ _ _ _ H1) as [[-> _]|[[v [k [key [q [r [-> [E _]]]]]]]|[out ->]]]; cbn [wpc]; try lia.
+    cbn [enter] in H1. pose proof (ful_goto_w N _ _ _ _ _ _ _ _ H1 (fun _ => eq_refl)) as Hw. unfold Phi in HPhi. cbn in Hw. lia.
+  - destruct k; cbn [wpc]; lia.
+  - destruct k; cbn [wpc]; lia.
+  - (* one more iteration *)
+    assert (Hpe : k = false -> pend (iter false (ct (gl s)) k key q h1) true = pend c0 true).
+    { intros ->. unfold iter; cbn [pend]. rewrite setf_ne by discriminate. eapply (B_fpend _ _ HB t). rewrite Hp. exact H. }
+    pose proof (ful_goto_w N _ _ _ _ _ _ _ _ H2 Hpe) as Hw. destruct k; cbn [wpc]; lia.
+Qed.
+
+Definition getfs (progs : list (list op)) : nat := list_sum (map getfs_prog progs).
+Lemma PInv_init ns pl progs : PInv (getfs progs) (gl (init ns pl progs)) (thr (init ns pl progs)).
+Proof.
+  unfold PInv, init, getfs. cbn [gl thr ct]. rewrite map_map. unfold getf_loc. cbn [prog at_].
+  assert (E : map (fun x : list op => (getfs_prog x + 0)%nat) progs = map getfs_prog progs).
+  { apply map_ext. intros. lia. }
+  rewrite E. cbn. lia.
+Qed.
+Lemma R_inv2 ns pl progs s : R ns pl progs s -> Inv2 (getfs progs) (gl s) (thr s).
+Proof.
+  intros H. eapply (reachable_inv glob loc tstep (Inv2 (getfs progs))); [apply Inv2_step| |exact H].
+  split; [apply Inv_init|apply PInv_init].
+Qed.
+(* every schedule makes at most mu moves: no run goes on for ever *)
+Lemma bounded_work ns pl progs s sc : R ns pl progs s -> (moves glob loc tstep s sc <= mu (getfs progs) s)%nat.
+Proof.
+  intros HR. eapply (moves_le_mu glob loc tstep (mu (getfs progs)) (Inv2 (getfs progs)) (Inv2_step _) any_choice).
+  - intros s0 t c. apply mu_dec.
+  - apply (R_inv2 _ _ _ _ HR).
+  - unfold sched_ok. apply forallb_forall. reflexivity.
+Qed.
